@@ -73,7 +73,6 @@ NOT_APPLICABLE = {
     # provisional while their contracts are being built (moved to checks as they land):
     'C02': 'numerical agreement with Wertheim-Thiele / discretisation error under refinement is not expressible as a contract on these functions; dilute-limit lemmas under construction; not yet claimed',
     'C04': 'relational lemmas over the PRISM.cost contract under construction; not yet claimed',
-    'C17': 'quantity-algebra contracts under construction; not yet claimed',
 }
 
 A_INV = 'np.linalg.inv is modelled by its defining equations inv(A) A = A inv(A) = I: results hold for the invertible matrices on which numpy returns (singular I - Omega C raises LinAlgError in numpy; not covered)'
@@ -81,6 +80,12 @@ A_ROOT = 'A5 (R1/R2): scipy.optimize.root evaluates the cost function finitely o
 A_DST = A_EXT % 'scipy.fftpack.dst types 2/3 are functions of their input array (matched call by call), are the defining sine sums, linear, and mutually inverse up to 2N'
 
 PROPS.update({
+    'C17': {
+        'level': 'proof',
+        'technique': TECH + '; pint modelled by a quantity algebra (magnitude, scale to SI, dimension vector, offset) whose unit facts are read from the installed registry',
+        'explanation': 'The six conversion methods are symbolically executed on real UnitConverter objects (constructor run symbolically, incl. the registry definitions) for 4 combinations of length/energy units, scalar and array arguments, and with a second converter of different units alive in the process; each result is compared -- dimension, unit and magnitude -- with the textbook formula written with the exact SI k_B and N_A and the characteristic values as given to the constructor: T=T* e_c/(k_B[N_A]), T-273.15, k*/d_c [x10], rho*/(d_c^3 N_A) in mol/L, rho* pi d^3/6 dimensionless. No-exception, linearity/affinity and elementwise behaviour follow from the pointwise form.',
+        'assumptions': [A_FP, A_NUMPY, 'pint 0.26 itself is trusted: unit-expression parsing, Quantity arithmetic rules (* / ** .to, DimensionalityError iff dimensions differ, offset units), and the registry values of the unit names used (read from the installed registry on every run, compared against exact SI k_B, N_A by the specs)', 'unit strings exercised: nanometer/angstrom/micrometer, kilojoule/mole, kcal/mol, joule, eV'],
+    },
     'C01': {
         'level': 'proof',
         'technique': TECH + '; PRISM equation as an abstract-ring lemma over the postcondition of PRISM.cost (z3, hint chain)',
@@ -113,7 +118,7 @@ PROPS.update({
     },
 })
 
-for _p in ('C02', 'C04', 'C17'):
+for _p in ('C02', 'C04'):
     PROPS.setdefault(_p, {'level': 'proof', 'technique': TECH, 'explanation': 'under construction', 'assumptions': [A_FP, A_ASSERT, A_NUMPY], 'registered': False})
 
 NOT_APPLICABLE = {
@@ -121,7 +126,6 @@ NOT_APPLICABLE = {
     # provisional while their contracts are being built (moved to checks as they land):
     'C02': 'numerical agreement with Wertheim-Thiele / discretisation error under refinement is not expressible as a contract on these functions; dilute-limit lemmas under construction; not yet claimed',
     'C04': 'relational lemmas over the PRISM.cost contract under construction; not yet claimed',
-    'C17': 'quantity-algebra contracts under construction; not yet claimed',
 }
 
 for _p in ('C01', 'C02', 'C04', 'C05', 'C06', 'C08', 'C16', 'C17'):
